@@ -118,6 +118,24 @@ def run(ctx):
                 progs.append("%s [0, %s] elem ?1 %s" % (a, b, w))
                 if not quick:
                     progs.append("[0, %s] elem ?1 [0, 0, %s] elem ?2 %s" % (a, b, w))
+    # ?find / ?starts / ?ends on every haystack up to length 4 and needle up to length 3 over two
+    # symbols (self-overlapping needles, failed partial matches), as sequences and as strings
+    import itertools as _it
+    seqpairs = []
+    for hl in range(0, 5):
+        for h in _it.product((1, 2), repeat=hl):
+            for nl in range(0, 4):
+                for nd in _it.product((1, 2), repeat=nl):
+                    seqpairs.append((list(h), list(nd)))
+    if quick:
+        seqpairs = [pr for k, pr in enumerate(seqpairs) if len(pr[0]) >= 3 or k % 3 == 0]
+    def contains(h, nd):
+        return any(h[i:i + len(nd)] == nd for i in range(len(h) - len(nd) + 1))
+    for h, nd in seqpairs:
+        for w, f in (("?find", contains), ("?starts", lambda a, b: a[:len(b)] == b), ("?ends", lambda a, b: len(b) == 0 or a[-len(b):] == b)):
+            direct.append(("%s %s %s" % (str(h), str(nd), w), 1 if f(h, nd) else 0))
+            hs, ns = "".join("ab"[x - 1] for x in h), "".join("ab"[x - 1] for x in nd)
+            direct.append(('"%s" "%s" %s' % (hs, ns, w), 1 if f(h, nd) else 0))
     progs = list(dict.fromkeys(progs))
     stats = {"evaluations": 0, "disagreements": 0, "results_hist": {}, "nontrivial": set()}
     for k in range(0, len(progs), 3000):
@@ -149,7 +167,7 @@ def run(ctx):
     ctx.cov.update({
         "evaluations": stats["evaluations"],
         "distinct_nontrivial": len(stats["nontrivial"]) + len(direct),
-        "rule": "every core word (22 unary forms, 15 binary, rot) applied to operands from a %d-value pool (boundary integers in each radix, strings with NUL/high bytes/repeats, nested and heterogeneous sequences, a closure, named constants) on stacks of depth 0-6 built by different push/pop/drop histories (plain pushes, overshoot-and-drop, backtick-bracket drop, swaps); each query on the hooked build (profile re-derived after every push/pop/drop) compared with the extracted model of the words and with the specification; string predicates also with Python bytes semantics" % len(pool),
+        "rule": "every core word (22 unary forms, 15 binary, rot) applied to operands from a %d-value pool (boundary integers in each radix, strings with NUL/high bytes/repeats, nested and heterogeneous sequences, a closure, named constants) on stacks of depth 0-6 built by different push/pop/drop histories (plain pushes, overshoot-and-drop, backtick-bracket drop, swaps); each query on the hooked build (profile re-derived after every push/pop/drop) compared with the extracted model of the words and with the specification; string predicates also with Python bytes semantics; ?find/?starts/?ends on all haystacks of length <= 4 and needles of length <= 3 over two symbols, as sequences and as strings, against list semantics" % len(pool),
         "samples": [progs[0], progs[len(progs) // 2], progs[-1]],
         "traces_validated_against_impl": stats["evaluations"],
         "direct_bytestring_checks": len(direct),
